@@ -86,3 +86,30 @@ Ltac k_derive_exact sp Hsp le se :=
       repeat match goal with |- context [ln ?t] => progress ring_simplify t end;
       unfold Rminus, Rdiv; field; repeat split; lra ]
   end.
+
+(* ---------------------------------------------------------------- first moments (C04) *)
+Ltac m_split re := cbn [eval re cst_val nth]; unfold Rminus, Rdiv; field.
+Ltac m_split_upper re u :=
+  cbn [eval re cst_val nth];
+  repeat match goal with |- context [ln ?t] => progress ring_simplify t end;
+  unfold Rminus, Rdiv; field.
+Ltac m_loc0 le :=
+  cbn [eval le cst_val nth];
+  repeat match goal with |- context [ln ?t] => progress ring_simplify t end;
+  rewrite ?ln_1; unfold Rminus, Rdiv; field.
+Ltac m_enclose n :=
+  match goal with |- context [RInt_gen ?f (at_right 0) (at_point (1 / 2))] =>
+    let H := fresh "Henc" in
+    integral_intro (RInt_gen f (at_right 0) (at_point (1 / 2))) with (i_relwidth 30) as H;
+    let I := fresh "I" in set (I := RInt_gen f (at_right 0) (at_point (1 / 2))) in *
+  end.
+Ltac m_finish H := destruct H as [-> | [-> | [-> | ->]]]; apply Rabs_le; split; lra.
+
+(* ---------------------------------------------------------------- closed forms (C04) *)
+(* identity of a regenerated kernel with a hand-written closed form on 0 < z < 1 *)
+Ltac k_closed ke :=
+  cbn [eval ke cst_val];
+  match goal with Hz : 0 < ?z < 1 |- _ =>
+    repeat match goal with |- context [ln (?a / ?b)] => rewrite (ln_div a b) by lra end;
+    unfold Rminus, Rdiv; field; repeat split; lra
+  end.
